@@ -28,6 +28,14 @@ CHECKS = {
         text="Histories op1;op2[;op3];close() x 5 transports (TCP with 1-3 resolved addresses, UNIX, TLS) x option sets (no_delay, keepalive, timeout combinations incl. one-sided, ignore_exc) x {Client, PooledClient, HashClient} x every fault plan with <=1 (quick) / <=2 (thorough) deviations; monitors: never two open sockets per client, no open socket that its client no longer references, nothing open after close(), connect under connect_timeout and I/O under timeout, no I/O on the unwrapped socket under TLS, a fault-free call after any failure reconnects and returns the right answer, a later resolved address is used when socket creation fails for an earlier one.",
         note=TB + "A socket is open from socket() to close(); every resolved address is served by the same reference server; more than 2 deviations per history not explored.",
     ),
+    "C07": dict(
+        engine="E1-deviation-bounded-explorer",
+        level="fault_enumeration",
+        technique="stateless exhaustive enumeration of fault plans on the real clients with ignore_exc, differential oracle against the same call on a fresh healthy empty stack",
+        design_ref="DESIGN.md section 3 / C07",
+        text="12 read call shapes (defaults positional/keyword) x 6 stacks (Client, PooledClient, HashClient with 0/1/2 servers, pooled or not) x {no serde, raising deserializer} x {cold, after a warm-up call} x every fault plan with <=1 (quick) / <=2 (thorough) deviations; nothing may be raised, the result must equal the miss result of the very same call (for the keys whose server failed), and a probe set;get afterwards must succeed.",
+        note=TB + "For a multi-server HashClient the keys of servers that did not fail are still expected in multi-key results (a reading of 'miss' per server); call shapes a class does not offer at all are left to C16.",
+    ),
 }
 
 PENDING = "check not built yet in this session; planned engine and oracle are in DESIGN.md section 3"
